@@ -151,7 +151,11 @@ theorem parser_roundtrip (bo : ByteOrder) (ps : List (Ty × Val)) (b : Body)
     (hsig : Spec.Sig.Denotes b.sig (itemsTypes ps))
     (hd : ∀ p ∈ ps, depthOf p.1 p.2 ≤ maxDepth ∧ fdsBelow 0 p.1 p.2 = true) :
     getAll b ⟨0, 0⟩ (itemsTypes ps) = .ok (itemsVals ps, ⟨b.buf.length, b.sig.length⟩) := by
-  sorry
+  have _ := hsig  -- not needed: the signature is determined by `hb`
+  obtain ⟨h1, h2, h3, h4⟩ := (pushAll_plain_eq bo ps b).mp hb
+  have := getAll_aux b ps [] b.buf [] [] [] (by simpa [h4] using h1) (by simp) (by simp [h2])
+    (fun p hp => by rw [h3]; exact hd p hp)
+  simpa [← h2] using this
 
 /-- Asking for a type other than the next one in the signature is an error, never a misread
     (for a valid body signature `listToStr ts` and a parser standing at the start of its `i`-th type). -/
